@@ -7,13 +7,14 @@
 #include <pthread.h>
 #include <sched.h>
 #include <unistd.h>
+#include <time.h>
 #include <stdarg.h>
 #include "hcommon.h"
 
-enum { PG_SPAWN, PG_ATTR, PG_DETACH, PG_MUTEX_STATIC, PG_COND, PG_BARRIER, PG_SPIN, PG_ONCE, PG_KEYS, PG_SELF, PG_EXIT, PG_MIX, PG_KEYS_ALL, PG_TRYLOCK, PG_RETCODES, PG_KEYS_MANY, PG_N };
+enum { PG_SPAWN, PG_ATTR, PG_DETACH, PG_MUTEX_STATIC, PG_COND, PG_BARRIER, PG_SPIN, PG_ONCE, PG_KEYS, PG_SELF, PG_EXIT, PG_MIX, PG_KEYS_ALL, PG_TRYLOCK, PG_RETCODES, PG_KEYS_MANY, PG_SLEEPS, PG_N };
 static const char * const pg_name[] = { "spawn tree (NULL attr)", "spawn with attribute objects (default-init, stack size)", "detached threads (attribute and pthread_detach)",
   "counter under a PTHREAD_MUTEX_INITIALIZER mutex first used by all threads at once", "condition-variable hand-off (static initialisers)", "barrier phases",
-  "spin-lock counter", "pthread_once", "keys with destructors", "pthread_self / pthread_equal", "pthread_exit from nested frames", "mixed: keys + mutex + yield + usleep(0)", "keys with destructors, every thread stores a value under every key", "trylock / timedlock on a mutex held by the creator", "return codes of init/destroy/attr/yield/sleep calls", "18 keys without destructors: a thread reads NULL under every key it has not stored under, also after storing under the neighbouring keys (4 threads one after the other, then concurrent ones)" };
+  "spin-lock counter", "pthread_once", "keys with destructors", "pthread_self / pthread_equal", "pthread_exit from nested frames", "mixed: keys + mutex + yield + usleep(0)", "keys with destructors, every thread stores a value under every key", "trylock / timedlock on a mutex held by the creator", "return codes of init/destroy/attr/yield/sleep calls", "18 keys without destructors: a thread reads NULL under every key it has not stored under, also after storing under the neighbouring keys (4 threads one after the other, then concurrent ones)", "threads measure their own usleep(400000) and nanosleep(0.999999999 s): neither returns early" };
 typedef struct { int pg, n, W, K; } prog_t;
 #define MAXP 200
 static prog_t P[2][MAXP]; static int NP[2];
@@ -61,8 +62,9 @@ static void * t_spin(void * a) {
   }
   return (void *)rc;
 }
-static void once_fn(void) { once_runs++; sched_yield(); }
-static void * t_once(void * a) { (void)a; pthread_once(&once, once_fn); return (void *)once_runs; }
+static volatile long once_val;
+static void once_fn(void) { once_runs++; sched_yield(); once_val = 42; }   /* the value appears only at the end of the routine */
+static void * t_once(void * a) { (void)a; pthread_once(&once, once_fn); return (void *)(once_runs * 100 + once_val); }   /* every caller returns after the routine has completed */
 static int keys_all;
 static void dtor(void * v) { pthread_mutex_lock(&smtx); dtor_sum += (long)v; dtor_calls++; pthread_mutex_unlock(&smtx); }
 static void * t_keys(void * a) {
@@ -83,6 +85,17 @@ static void * t_many(void * a) {
   sched_yield();
   for (int j = 0; j < NMANY; j++) sum += (long)pthread_getspecific(many[j]);
   return (void *)(stale ? -stale : sum);
+}
+static int in_reference_mode;
+static long long now_ns(void) { struct timespec t; if (in_reference_mode) clock_gettime(CLOCK_REALTIME, &t); else mv_clock_read(&t); return (long long)t.tv_sec * 1000000000LL + t.tv_nsec; }
+static void * t_sleeps(void * a) {
+  long me = (long)a; long ok = 0;
+  if (me) usleep(100000 * me);               /* threads start their measured sleeps at different phases of the second */
+  long long t0 = now_ns(); int r1 = usleep(400000); long long t1 = now_ns();
+  struct timespec rq = { 0, 999999999 }; int r2 = nanosleep(&rq, NULL); long long t2 = now_ns();   /* the nanosecond field carries into the seconds at almost any phase */
+  if (r1 == 0 && t1 - t0 >= 400000000LL) ok += 10;
+  if (r2 == 0 && t2 - t1 >= 999999999LL) ok += 1;
+  return (void *)ok;
 }
 static void * t_self(void * a) { long me = (long)a; pthread_t s = pthread_self(); sched_yield(); self_ok[me] = pthread_equal(s, pthread_self()) ? 1 : 0; return (void *)(long)(pthread_equal(pthread_self(), pthread_self()) != 0); }
 static void __attribute__((noinline)) deep_exit(long v, int d) { volatile char pad[32]; pad[0] = (char)d; if (d == 0) pthread_exit((void *)v); deep_exit(v, d - 1); (void)pad; }
@@ -135,6 +148,7 @@ static void program(int pg, int n, char * log, size_t logn) {
     for (long i = 1; i < n; i++) pthread_create(&th[i], NULL, t_many, (void *)(i + 3)); for (int i = 1; i < n; i++) { pthread_join(th[i], &r); logf_("m%d=%ld;", i, (long)r); }
     { long mainstale = 0; for (int j = 0; j < NMANY; j++) if (pthread_getspecific(many[j]) != NULL) mainstale++; logf_("kc=%d;main_stale=%ld;", kc, mainstale); }
     for (int j = 0; j < NMANY; j++) pthread_key_delete(many[j]); break; }
+  case PG_SLEEPS: for (long i = 0; i < n; i++) pthread_create(&th[i], NULL, t_sleeps, (void *)i); for (int i = 0; i < n; i++) { pthread_join(th[i], &r); logf_("slept%d=%ld;", i, (long)r); } break;
   case PG_RETCODES: {
     pthread_attr_t a; size_t ss = 0; int ds = -1; pthread_cond_t c; pthread_barrier_t b; pthread_key_t k; pthread_spinlock_t sp; pthread_mutexattr_t ma; int ty = -1;
     logf_("ai=%d;", pthread_attr_init(&a)); logf_("ass=%d;", pthread_attr_setstacksize(&a, 262144)); { int q = pthread_attr_getstacksize(&a, &ss); logf_("ags=%d/%zu;", q, ss); }
@@ -155,12 +169,14 @@ static void program(int pg, int n, char * log, size_t logn) {
 static void reference(int tier, int prog, char * out, size_t n) {
   build(); prog_t * p = &P[tier][prog];
   setenv("MYTH_WRAP_PTHREAD", "0", 1);           /* the same binary on the system's pthreads */
+  in_reference_mode = 1;
   program(p->pg, p->n, out, n);
 }
 static void run(int tier, int prog) {
   build(); prog_t * p = &P[tier][prog];
   static char log[MV_REF_SZ];
   mv_start(p->W);
+  if (p->pg == PG_SLEEPS) mv_set_clock_step(350000000L, 1600000000L);   /* sleeps of tenths of a second: a coarse virtual clock */
   program(p->pg, p->n, log, sizeof log);
   mv_obs("%s", log);
   MV_CHECK(mv_reference && !strcmp(log, mv_reference), "output differs from the system pthread library: got [%s], reference [%s]", log, mv_reference ? mv_reference : "(none)");
